@@ -1,5 +1,6 @@
 import HavocVerif.Basic.Proto
 import HavocVerif.Model.Queue
+import HavocVerif.Model.TaskTable
 /-
   Driver for C02 (and the job-level ops shared with C04/C08).
     agent <id> <key> <iv> <ks>          register an agent; ks = keystream prefix (hex)
@@ -98,6 +99,33 @@ def step (s : St) (l : Line) : St × Verdict :=
         else (s', .specFail "C02.request-id" s!"the operator was told task id {taskId} ({tid}), the queued job carries request id {req}")
       | _ => (s', .diff "ok")
     | _, _, _, _ => (s, .bad "task args")
+  | "prep", name :: taskId :: _key :: _iv :: ksHex :: params =>
+    -- an operator command through the real TaskPrepare on a fresh agent, queued and fetched by one check-in:
+    -- read the way the Demon reads it (dispatch table -> handler -> its reads), it must carry the command, the task id
+    -- the operator was told and the operator's parameters.  params are hex of the operator's (UTF-8) strings; "-" = empty.
+    match TaskTable.find name, (ofHex taskId).map beNat, ofHex ksHex, params.mapM (fun p => if p == "-" then some [] else ofHex p), l.impl with
+    | some e, some tid, some ksb, some ps, [rh] =>
+      match ofHex rh with
+      | some resp =>
+        match demonDispatch (ksOf ksb) resp with
+        | none => (s, .specFail "C02.frame-decode" s!"{name}: the Demon's reader runs out of bounds on the response")
+        | some ts =>
+          match ts.getLast? with
+          | none => (s, .specFail "C02.operator-params" s!"{name}: the command was accepted but no task reached the agent")
+          | some t =>
+            if TaskTable.taskOk e ps tid t then (s, .ok)
+            else
+              let want := e.expected ps
+              let got := e.kinds.bind fun ks => (demonRead ks t.body).map (·.1)
+              if t.requestId ≠ tid % 4294967296 then
+                (s, .specFail "C02.request-id" s!"{name}: the operator was told task id {taskId}, the frame carries request id {t.requestId}")
+              else if some t.command ≠ e.commandId then
+                (s, .specFail "C02.operator-params" s!"{name}: the frame carries command {t.command}; the Demon serves this command under {e.commandId} ({e.handler})")
+              else
+                (s, .specFail "C02.operator-params" s!"{name}: {e.handler} reads {repr got} from the task body, the operator asked for {repr want}")
+      | none => (s, .specFail "C02.operator-params" s!"{name}: the operator's command ended with {implS.take 120}")
+    | none, _, _, _, _ => (s, .bad s!"prep: unknown command {name}")
+    | _, _, _, _, _ => (s, .bad "prep args")
   | "checkin", [id] =>
     match s.find id, l.impl with
     | some a, [rh] =>
